@@ -11,6 +11,11 @@ use std::fmt::Display;
 use std::str::FromStr;
 
 use std::sync::Arc;
+#[cfg(feature = "verif")]
+use crate::verif::{AtomicU64, AtomicUsize};
+#[cfg(feature = "verif")]
+use std::sync::atomic::Ordering;
+#[cfg(not(feature = "verif"))]
 use std::sync::atomic::{AtomicU64, AtomicUsize, Ordering};
 
 /// A lock-free implementation of a price level in a limit order book
@@ -65,6 +70,27 @@ impl PriceLevel {
     pub fn from_snapshot_json(data: &str) -> Result<Self, PriceLevelError> {
         let package = PriceLevelSnapshotPackage::from_json(data)?;
         Self::from_snapshot_package(package)
+    }
+}
+
+#[cfg(feature = "verif")]
+impl PriceLevel {
+    /// Addresses of the three aggregate counters, as passed to the verification hook.
+    pub fn verif_objects(&self) -> [usize; 3] {
+        [
+            self.visible_quantity.verif_addr(),
+            self.hidden_quantity.verif_addr(),
+            self.order_count.verif_addr(),
+        ]
+    }
+
+    /// Unhooked reads of the three aggregate counters, for the scheduler between steps.
+    pub fn verif_raw(&self) -> (u64, u64, usize) {
+        (
+            self.visible_quantity.verif_raw(),
+            self.hidden_quantity.verif_raw(),
+            self.order_count.verif_raw(),
+        )
     }
 }
 
